@@ -131,7 +131,7 @@ def r2(ctx):
                   found=", ".join(cb))
     # producer: task k is built from cluster k and stored at position k
     prod = ana.func("graphical_lasso.optimize_markov_random_fields")
-    b = ana.builder(prod, no_inline=lambda f: True)
+    b = ana.builder(prod, no_inline=ana.known)
     found_store = False
     for s in b.stores():
         if s.idx is None or len(s.idx) != 1:
@@ -147,7 +147,7 @@ def r2(ctx):
                   expected=f"tasks[{k}] = setup(model.clusters[{k}], ...)", found=f"tasks[{k}] = {v}")
         rng = None
         if s.loops and isinstance(s.loops[-1], ast.For):
-            rng = b.loop_range(s.loops[-1])
+            rng = s.loop_ranges[-1]
         want = tm.Range(0, Attr(Attr(Sym("model"), "arguments"), "num_clusters"))
         ctx.check(rng is not None and rng == want, prod, "one task per cluster id in range(num_clusters)",
                   line=s.stmt.lineno, role="producer:range", expected=str(want), found=str(rng))
@@ -168,7 +168,7 @@ def r2(ctx):
             raise AnalysisError("producer of the task list not recognised in optimize_markov_random_fields")
     # consumer: results are paired with clusters positionally and appended in order
     cons = ana.func("graphical_lasso._retrieve_optimization_results")
-    bc = ana.builder(cons, no_inline=lambda f: True)
+    bc = ana.builder(cons, no_inline=ana.known)
     target = None
     for s in bc.stores():
         if s.attr == "clusters":
